@@ -24,8 +24,16 @@ def run(ctx: Ctx) -> None:
     g = CFG(ws)
     tg = [n.id for n in g.nodes if n.kind == "with_enter" and norm(n.ast.items[0].context_expr) == "TaskGroup()"]
     ctx.need(len(tg) == 1, f"{w}: trigger TaskGroup not found")
-    wit = g.must_pass(tg[0], g.exits(), has_call("context.terminated.set"))
-    ctx.check("C15.R1", w, "trigger wait -> terminated.set() on every exit", wit is None, "an exit of the trigger wait leaves `terminated` unset: idle connections are not closed and new requests still accepted: " + explain(g, wit), ws)
+    cover = [t for t in walk_local(ws) if isinstance(t, ast.Try) and any(x is g.node(tg[0]).ast for s_ in t.body for x in ast.walk(s_))]
+    ok = bool(cover) and bool(cover[0].finalbody)
+    pre = []
+    if ok:
+        idx = next((i for i, s_ in enumerate(cover[0].finalbody) if norm(s_) == "await context.terminated.set()"), None)
+        ok = idx is not None
+        if ok:
+            pre = cover[0].finalbody[:idx]
+            ok = all(isinstance(s_, ast.Expr) and ".log." in norm(s_) for s_ in pre)
+    ctx.check("C15.R1", w, "trigger wait -> terminated.set() first in the covering finally", ok, "an exit of the trigger wait leaves `terminated` unset (or something that can fail / block runs before it): idle connections are not closed and new requests still accepted", cover[0] if cover else ws)
     term = g.where(has_call("context.terminated.set"))
     closes = g.where(has_call("server.close"))
     waitn = g.where(has_call("asyncio.wait_for"))
@@ -98,9 +106,10 @@ def run(ctx: Ctx) -> None:
     ok = len(cc) == 1
     if ok:
         def canon(t):
-            return {"idle": "idle", "self.idle": "idle", "self.context.terminated.is_set()": "term"}.get(t)
-        gs = [(t, p) for t, p in guards(cc[0], stop=arm) if t is not arm.test]
-        cex = guards_table(gs, lambda e: e.get("idle", False) and e.get("term", False), {}, canon)
+            return {"idle": "idle", "self.idle": "idle", "self.context.terminated.is_set()": "term", "len(self.streams) == 0": "nostreams", "not self.streams": "nostreams",
+                    "all((stream.idle for stream in self.streams.values()))": "allidle"}.get(t)
+        gs = [(t, p) for t, p in guards(cc[0], stop=arm) if norm(t) != norm(arm.test)]
+        cex = guards_table(gs, lambda e: (e.get("idle", False) or e.get("nostreams", False) or e.get("allidle", False)) and e.get("term", False), {}, canon)
         ok = cex is None and bool(gs)
     ctx.check("C15.R4", f"{M2}:H2Protocol.stream_send", "last stream closed and terminated -> close_connection()", ok, "an idle HTTP/2 connection must be told to go away once shutdown began", cc[0] if cc else arm)
     g3 = CFG(ss)
